@@ -171,6 +171,15 @@ def run(eng, ctx):
             # the only admissible test of the size on the way to the body read is "size != 0" (or "size > 0")
             wrong = [a for a, v in vals if not ((a[1] == "==" and a[3] == ("const", 0) and not v) or (a[1] == ">" and a[3] == ("const", 0) and v) or (a[1] == "<" and a[3] == ("const", 1) and not v))]
             ctx.check(not wrong, "C12.D3", dq, f"{norm(e.node)[:40]} guard", expected="issued for non-zero sizes", found=guard_text(conj)[:100], **eng.loc(f, e.node))
+            # nothing else decides whether the body is read: besides the size test only completeness tests of consumed pieces may guard it
+            cterms = [c.term for c in consumes]
+            other = [(c, pol) for c, pol in conj if not (c[0] == "cmp" and c[2] in sizes and is_const(c[3])) and not any(mentions(c, lambda s_, t=t: s_ == t) for t in cterms) and c != info.get("test")]
+            ctx.check(not other, "C12.D3", dq, f"{norm(e.node)[:40]} has no other precondition", expected="size line complete and size != 0", found=guard_text(other)[:100], **eng.loc(f, e.node))
+            has_size = any(c[0] == "cmp" and c[2] in sizes and is_const(c[3]) for c, pol in conj)
+            later_zero = any(x.kind == "call" and x is not e and False for x in se.effects)
+            if not has_size:
+                # an unguarded body read is right only if a zero size cannot reach it: require the zero-size exit to precede it
+                ctx.bad("C12.D3", dq, f"{norm(e.node)[:40]} is not conditioned on the size", expected="guarded by size != 0 (the terminating zero chunk has no body)", found=guard_text(conj)[:100] or "unconditional", **eng.loc(f, e.node))
 
     # ---------------- D4 carry-in
     ctx.rule("C12.D4", "receiver: dechunk(partial ‖ data) in that order; both results stored from one call; decoded part appended to the buffer")
@@ -215,6 +224,9 @@ def run(eng, ctx):
         for c, p in e.guards:
             if p and c[0] == "bin" and c[1] == "&" and is_const(c[3]) and c[3][1] in want_w:
                 bit = c[3][1]
+        body_terms = [c.term for c in consumes if c.term[2][2] == "read"]
+        src = e.term[3][0] if e.term[3] else None
+        ctx.check(src is not None and any(mentions(src, lambda s_, t=t: s_ == t) for t in body_terms), "C12.D5", dq, f"{norm(e.node)[:50]} input", expected="the chunk body that was read", found=show(src)[:60] if src else "-", **eng.loc(f, e.node))
         w = dict(e.term[4]).get("wbits", e.term[3][1] if len(e.term[3]) > 1 else None)
         ok = bit is not None and w == ("const", want_w[bit])
         seen.add(bit)
